@@ -97,7 +97,7 @@ def run(tier):
             if not x["l"]:
                 x["l"] = next(T(w) for w in ("first", "second", "third", "fourth", "fifth", "sixth", "seventh") if tuple(T(w)) not in used_l); used_l.add(tuple(x["l"]))
         a, a2, a3, cc, dd = g.r.sample(range(1, len(cfg["args"]) + 1), 5)
-        forms = g.r.sample([0, 1, 2], 3)
+        forms = g.r.sample([0, 1, 2, 3], 3)
         cfg["args"][a - 1]["req"] = [cc]; cfg["args"][a - 1]["cspell"] = forms[0]
         cfg["args"][a2 - 1]["req"] = [cc]; cfg["args"][a2 - 1]["cspell"] = forms[1]
         if g.r.random() < 0.5:
